@@ -3,15 +3,35 @@
 // (appends this test to the harness module in a scratch overlay of /repo and runs `cargo kani playback`).
 /// Test generated for harness `xls::k_c02_xls::c02_q_mulrk_n1` 
 ///
-/// Check for `assertion`: "attempt to add with overflow"
+/// Check for `assertion`: ""MULRK entry value""
 
 #[test]
-fn kani_concrete_playback_c02_q_mulrk_n1_3841591756549572844() {
+fn kani_concrete_playback_c02_q_mulrk_n1_12678262573688536779() {
     let concrete_vals: Vec<Vec<u8>> = vec![
         // 255
         vec![255],
         // 255
         vec![255],
+        // 136
+        vec![136],
+        // 0
+        vec![0],
+        // 2
+        vec![2],
+        // 0
+        vec![0],
+        // 134
+        vec![134],
+        // 255
+        vec![255],
+        // 255
+        vec![255],
+        // 255
+        vec![255],
+        // 136
+        vec![136],
+        // 0
+        vec![0],
         // 0
         vec![0],
         // 0
@@ -20,26 +40,6 @@ fn kani_concrete_playback_c02_q_mulrk_n1_3841591756549572844() {
         vec![2],
         // 0
         vec![0],
-        // 178
-        vec![178],
-        // 140
-        vec![140],
-        // 254
-        vec![254],
-        // 255
-        vec![255],
-        // 255
-        vec![255],
-        // 255
-        vec![255],
-        // 1
-        vec![1],
-        // 0
-        vec![0],
-        // 2
-        vec![2],
-        // 2
-        vec![2],
     ];
     kani::concrete_playback_run(concrete_vals, c02_q_mulrk_n1);
 }
@@ -49,40 +49,40 @@ fn kani_concrete_playback_c02_q_mulrk_n1_3841591756549572844() {
 /// Check for `cover`: "end"
 
 #[test]
-fn kani_concrete_playback_c02_q_mulrk_n1_858878565299601562() {
+fn kani_concrete_playback_c02_q_mulrk_n1_11255484223652791247() {
     let concrete_vals: Vec<Vec<u8>> = vec![
         // 255
         vec![255],
         // 255
         vec![255],
-        // 255
-        vec![255],
-        // 255
-        vec![255],
+        // 136
+        vec![136],
+        // 0
+        vec![0],
         // 1
         vec![1],
         // 0
         vec![0],
-        // 250
-        vec![250],
-        // 252
-        vec![252],
-        // 15
-        vec![15],
-        // 14
-        vec![14],
-        // 255
-        vec![255],
-        // 255
-        vec![255],
+        // 2
+        vec![2],
+        // 0
+        vec![0],
+        // 0
+        vec![0],
+        // 0
+        vec![0],
+        // 136
+        vec![136],
+        // 0
+        vec![0],
+        // 1
+        vec![1],
         // 1
         vec![1],
         // 2
         vec![2],
-        // 2
-        vec![2],
-        // 2
-        vec![2],
+        // 1
+        vec![1],
     ];
     kani::concrete_playback_run(concrete_vals, c02_q_mulrk_n1);
 }
